@@ -68,10 +68,13 @@ def apply_edit(root, edit):
             return "function %s not found" % edit["func"]
         lines = src.split("\n")
         seg = "\n".join(lines[span[0] - 1 : span[1]])
-        if edit.get("regex"):
+        if edit.get("rename_local"):
+            seg2, cnt = rename_local_tokens(seg, edit["old"], edit["new"])
+        elif edit.get("regex"):
             import re
 
             seg2, cnt = re.subn(edit["old"], edit["new"], seg)
+        if edit.get("rename_local") or edit.get("regex"):
             if cnt == 0:
                 return "pattern not found in %s" % edit["func"]
             new_src = "\n".join(lines[: span[0] - 1]) + ("\n" if span[0] > 1 else "") + seg2 + "\n" + "\n".join(lines[span[1] :])
@@ -109,6 +112,38 @@ def make_scratch(src_root="/repo"):
     for f in Path(src_root, "atomica").glob("*.py"):
         shutil.copy(f, os.path.join(d, "atomica", f.name))
     return d
+
+
+def rename_local_tokens(seg, old, new):
+    """Rename NAME tokens `old` that are variable uses: not attributes (after '.'), not keyword-argument names."""
+    import io
+    import textwrap
+    import tokenize
+
+    indent = len(seg) - len(seg.lstrip(" "))
+    ded = textwrap.dedent(seg)
+    toks = list(tokenize.generate_tokens(io.StringIO(ded + "\n").readline))
+    lines = ded.split("\n")
+    depth, cnt, repl = 0, 0, []
+    for i, t in enumerate(toks):
+        if t.type == tokenize.OP and t.string in "([{":
+            depth += 1
+        elif t.type == tokenize.OP and t.string in ")]}":
+            depth -= 1
+        if t.type == tokenize.NAME and t.string == old:
+            prev = next((x for x in reversed(toks[:i]) if x.type not in (tokenize.NL, tokenize.COMMENT, tokenize.NEWLINE, tokenize.INDENT, tokenize.DEDENT)), None)
+            nxt = next((x for x in toks[i + 1 :] if x.type not in (tokenize.NL, tokenize.COMMENT)), None)
+            if prev is not None and prev.string == ".":
+                continue
+            if depth > 0 and nxt is not None and nxt.string == "=" and prev is not None and prev.string in ("(", ","):
+                continue
+            repl.append(t)
+    for t in sorted(repl, key=lambda t: (t.start[0], t.start[1]), reverse=True):
+        r, c = t.start
+        lines[r - 1] = lines[r - 1][:c] + new + lines[r - 1][c + len(old) :]
+        cnt += 1
+    out = "\n".join((" " * indent + l) if l.strip() else l for l in lines)
+    return out, cnt
 
 
 def analyse(prop, root):
